@@ -86,6 +86,16 @@ impl World {
         if matches!(res, Caught::Stopped) && self.ok() {
             self.violate("H.stopped", "a destructor stopped the run but no oracle explains why".into());
         }
+        // destructors that unwound (injected): remember which values
+        for t in tok::take_drop_faulted() {
+            if let Some(oid) = self.tok_owner(t) {
+                if let Some(o) = self.sh.objs.get_mut(&oid) {
+                    o.drop_faulted = true;
+                }
+                self.stats.drop_faults += 1;
+                self.stats.flag("C05.destructor-fault");
+            }
+        }
         let faulted = tok::faults_fired() != fired0;
         self.stats.faults_fired += tok::faults_fired() - fired0;
         let some = match res {
@@ -249,8 +259,11 @@ impl World {
                 self.rt[a as usize].sleep = None;
             }
         }
-        if unwound {
+        if unwound || self.stats.drop_faults > 0 {
+            // after a destructor fault the crate leaks a block it still counts: the pacing
+            // bookkeeping (survivors, H) no longer means what the oracles assume
             self.rt[a as usize].wake = None;
+            self.rt[a as usize].sleep = None;
             return;
         }
         // the liveness bound: still unfinished after cycle_debt => A < rho*H/(1-rho)
@@ -538,7 +551,7 @@ impl World {
                         self.violate("C05.shell-released", format!("object {i} is weakly referenced from a reachable object but its block was released"));
                         return;
                     }
-                } else if seam::active() && !o.released {
+                } else if seam::active() && !o.released && !o.drop_faulted {
                     self.violate("C02.survivor", format!("after two finish_cycle calls the block of unreachable, unreferenced object {i} ({:?}) is still allocated", o.kind));
                     return;
                 }
@@ -553,8 +566,11 @@ impl World {
         if !shells.is_empty() {
             self.stats.flag("C02.weakly-held-garbage");
         }
+        // blocks the crate leaks by construction: a destructor that unwound while the sweep was
+        // freeing the object (the object is unlinked first, the release never happens)
+        let leaked = |me: &World| me.sh.arena_objs(a).filter(|(i, o)| o.drop_faulted && !o.released && !reach.contains(i) && !shells.contains(i)).count();
         let count = self.metrics(a).total_gc_count();
-        if count != reach.len() + shells.len() {
+        if count != reach.len() + shells.len() + leaked(self) {
             self.violate("C02.count", format!("after two finish_cycle calls total_gc_count = {count}, expected {} reachable + {} shells", reach.len(), shells.len()));
             return;
         }
@@ -585,13 +601,14 @@ impl World {
             return;
         }
         let count = self.metrics(a).total_gc_count();
-        if count != reach.len() {
+        let leaked_now = self.sh.arena_objs(a).filter(|(i, o)| o.drop_faulted && !o.released && !reach.contains(i)).count();
+        if count != reach.len() + leaked_now {
             self.violate("C02.shell-kept", format!("no weak pointer is left, a full cycle ran, but total_gc_count = {count} with {} reachable objects", reach.len()));
             return;
         }
         if had_shells {
             for s in &shells {
-                if seam::active() && !self.sh.objs[s].released {
+                if seam::active() && !self.sh.objs[s].released && !self.sh.objs[s].drop_faulted {
                     self.violate("C02.shell-kept", format!("shell {s} was not released by the first full cycle after its last weak pointer went away"));
                     return;
                 }
@@ -638,7 +655,10 @@ impl World {
                     self.rt[a].retained = None;
                 }
                 for a in 0..self.rt.len() {
-                    let out = seam::outstanding(a as u16);
+                    let out: Vec<u32> = seam::outstanding(a as u16).into_iter().filter(|b| {
+                        let ow = seam::block(*b).owner;
+                        !(ow != 0 && self.sh.objs.get(&(ow - 1)).is_some_and(|o| o.drop_faulted))
+                    }).collect();
                     if !out.is_empty() {
                         let b = seam::block(out[0]);
                         self.violate("C04.outstanding", format!("arena {a} and all its handles are gone but {} blocks it allocated were never returned (first: size {}, align {}, owner {})", out.len(), b.size, b.align, b.owner));
@@ -675,7 +695,7 @@ impl World {
         let acting: Option<Aid> = match ev {
             Event::Mutate { a, .. } | Event::Collect { a, .. } | Event::SetPacing { a, .. } | Event::AdjustDebt { a, .. } | Event::NewArena { a, .. } | Event::DropArena { a } => Some(*a),
             Event::Handle { h, .. } => self.handles.get(h).map(|x| x.arena),
-            Event::ArmTraceFault { .. } => None,
+            Event::ArmTraceFault { .. } | Event::ArmDropFault { .. } => None,
         };
         let before = self.frame(acting);
         self.exec_event_inner(ev, g);
@@ -727,6 +747,7 @@ impl World {
             Event::SetPacing { a, p } => self.ev_set_pacing(*a, *p),
             Event::AdjustDebt { a, x } => self.ev_adjust_debt(*a, *x),
             Event::ArmTraceFault { at, repeat } => tok::arm_trace_fault(*at, *repeat),
+            Event::ArmDropFault { nth } => tok::arm_drop_fault(*nth),
             Event::NewArena { a, root_set, ops, p, fail, bare } => self.ev_new_arena(*a, *root_set, ops, *p, *fail, *bare, g),
             Event::DropArena { a } => self.ev_drop_arena(*a),
         }
